@@ -770,3 +770,643 @@ Lemma sites_notify : canon model_sites_notify = canon group_notify_sites. Proof.
 Lemma sites_wake : canon model_sites_wake = canon group_wake_sites. Proof. vm_compute. reflexivity. Qed.
 Lemma gstep_tstep s t e s' : gstep s t e = Some s' -> tstep (pcs s t) e = Some (pcs s' t).
 Proof. intros H. destruct (gstep_inv _ _ _ _ H) as (p' & s1 & Hts & _ & ->). sset. rewrite upd_same. exact Hts. Qed.
+
+(* ================= invariant 3: nobody is left behind =================
+   J     : value = 0 with a flag still set  =>  some thread is in the clearing loop of dispatch_group_leave holding a
+           value-0 word with a flag (it must attempt the CAS, and re-reads on failure);
+   Wake  : a thread past its successful clearing CAS that still owes the futex wake (its snapshot of the word has
+           HAS_WAITERS), or HAS_WAITERS still set in the word together with a clearing-loop thread that holds it;
+   sleeper: asleep in the current generation => HAS_WAITERS set and value <> 0; asleep in an older one => Wake;
+   Oc    : the value field is the number of outstanding enters (negated, mod 2^30). *)
+Definition WHp (p : pc) : Prop :=
+  match p with
+  | PSnapHead _ st | PSnapStore _ st | PSnapTail _ st | PFire _ st => fw st = 1
+  | PWakeFutex _ => True
+  | _ => False
+  end.
+Definition LWp (p : pc) : Prop := match p with PLvLoop _ old => fw old = 1 | _ => False end.
+Definition Jp (p : pc) : Prop := match p with PLvLoop _ old => fv old = 0 /\ (fn old = 1 \/ fw old = 1) | _ => False end.
+Definition Wake (s : gst) : Prop := (exists u, WHp (pcs s u)) \/ (fw (word s) = 1 /\ exists u, LWp (pcs s u)).
+Definition J (s : gst) : Prop := fv (word s) = 0 -> (fn (word s) = 1 \/ fw (word s) = 1) -> exists u, Jp (pcs s u).
+Definition Oc (s : gst) : Prop :=
+  0 <= outst s < 1073741824 /\ fv (word s) = (1073741824 - outst s) mod 1073741824.
+Definition T3p (s : gst) (t : Z) (p : pc) : Prop :=
+  match p with
+  | PSlow _ _ | PSleep _ _ | PSlowLoad _ _ _ => gsnap s t = gfull s -> fw (word s) = 1 /\ fv (word s) <> 0
+  | PWtCas _ old _ => fv old <> 0
+  | PNfCas old _ => (u32 old =? 0) = false
+  | _ => True
+  end.
+Definition T3 (s : gst) (t : Z) : Prop :=
+  (slp s t = Sleeping -> exists tmo g, pcs s t = PSleep tmo g) /\
+  T3p s t (pcs s t) /\
+  (slp s t = Sleeping -> gsnap s t < gfull s -> Wake s).
+Definition Inv3 (s : gst) : Prop := Oc s /\ J s /\ forall t, T3 s t.
+
+Lemma Inv3_init : Inv3 init_state.
+Proof.
+  split; [unfold Oc, fv; cbn; split; [lia|reflexivity]|]. split.
+  - intros _ [H|H]; cbn in H; discriminate H.
+  - intros t. unfold T3; cbn. repeat split; intros; discriminate.
+Qed.
+
+Section Arith3.
+Local Ltac Zify.zify_post_hook ::= Z.div_mod_to_equations.
+Lemma oc_enter o v : 0 <= o < 1073741824 -> v = (1073741824 - o) mod 1073741824 -> v <> 1 ->
+  0 <= o + 1 < 1073741824 /\ (v - 1) mod 1073741824 = (1073741824 - (o + 1)) mod 1073741824 /\ (v - 1) mod 1073741824 <> 0.
+Proof. intros. lia. Qed.
+Lemma oc_leave o v : 0 <= o < 1073741824 -> v = (1073741824 - o) mod 1073741824 -> v <> 0 ->
+  0 <= o - 1 < 1073741824 /\ (v = 1073741823 -> 0 = (1073741824 - (o - 1)) mod 1073741824) /\
+  (v <> 1073741823 -> v + 1 = (1073741824 - (o - 1)) mod 1073741824 /\ v + 1 <> 0).
+Proof. intros. lia. Qed.
+Lemma fresh_eq G g : g <= G -> G - g < 4294967296 -> G mod 4294967296 = g mod 4294967296 -> G = g.
+Proof. intros. lia. Qed.
+Lemma flags_of_u32 x : wfw x -> fv x = 0 -> (u32 x =? 0) = false -> fn x = 1 \/ fw x = 1.
+Proof.
+  intros W V U. rewrite (u32_fields x W), V in U. pose proof (decomp x W) as (_ & _ & _ & Bn & Bw).
+  apply Z.eqb_neq in U. lia.
+Qed.
+End Arith3.
+
+Lemma leave_new_fixpoint_flags x : wfw x -> fv x = 0 -> leave_new x = x -> fn x = 0 /\ fw x = 0.
+Proof.
+  intros W V E. pose proof (leave_new_spec x W) as (_ & _ & _ & _ & Fn & Fw). rewrite E, V in *. cbn in Fw. auto.
+Qed.
+Lemma WHp_wake_tail k x : wfw x -> fw x = 1 -> WHp (wake_tail k x).
+Proof. intros W F. rewrite (wake_tail_spec k x W), F. exact I. Qed.
+Lemma WHp_wake_entry k x : wfw x -> fw x = 1 -> WHp (wake_entry k x).
+Proof. intros W F. rewrite (wake_entry_spec k x W). destruct (fn x =? 1); [exact F|apply WHp_wake_tail; assumption]. Qed.
+(* entering the clearing loop on a word with a flag to clear *)
+Lemma lv_entry_J k x : wfw x -> fv x = 0 -> (fn x = 1 \/ fw x = 1) -> Jp (lv_loop_entry k x).
+Proof.
+  intros W V F. destruct (lv_loop_entry_spec k x W) as [->|(E & _ & _)]; [split; assumption|].
+  destruct (leave_new_fixpoint_flags x W V E) as (A & B). destruct F; lia.
+Qed.
+Lemma lv_entry_W k x : wfw x -> fw x = 1 -> LWp (lv_loop_entry k x) \/ WHp (lv_loop_entry k x).
+Proof.
+  intros W F. destruct (lv_loop_entry_spec k x W) as [->|(_ & _ & ->)]; [left; exact F|right; apply WHp_wake_tail; assumption].
+Qed.
+Lemma T3p_wake_tail s t k x : T3p s t (wake_tail k x).
+Proof. unfold wake_tail. destruct (nz _); [exact I|destruct k; exact I]. Qed.
+Lemma T3p_wake_entry s t k x : T3p s t (wake_entry k x).
+Proof. unfold wake_entry. destruct (nz _); [exact I|apply T3p_wake_tail]. Qed.
+Lemma T3p_lv_loop_entry s t k x : T3p s t (lv_loop_entry k x).
+Proof. unfold lv_loop_entry. destruct (_ =? _); [apply T3p_wake_entry|exact I]. Qed.
+Lemma T3p_after_add s t k x : T3p s t (after_add k x).
+Proof. rewrite after_add_spec. destruct (_ =? _); [apply T3p_lv_loop_entry|]. destruct (_ =? _); [exact I|destruct k; exact I]. Qed.
+Lemma T3p_nf_entry s t x : T3p s t (nf_entry x).
+Proof. rewrite nf_entry_spec. destruct (u32 x =? 0) eqn:E; [apply T3p_wake_entry|exact E]. Qed.
+Lemma T3p_wt_entry s t tmo x : wfw x -> (gsnap s t = gfull s -> word s = x) -> T3p s t (wt_entry tmo x).
+Proof.
+  intros W Hw. rewrite (wt_entry_spec tmo x W). destruct (Z.eqb_spec (fv x) 0) as [V|V]; [exact I|].
+  destruct (tmo =? 0); [exact I|]. destruct (Z.eqb_spec (fw x) 1) as [F|F]; cbn [T3p]; [|exact V].
+  intros E. rewrite (Hw E). auto.
+Qed.
+
+Lemma Wake_frame s s' t : Wake s -> (forall u, u <> t -> pcs s' u = pcs s u) ->
+  (fw (word s) = 1 -> fw (word s') = 1 \/ WHp (pcs s' t)) ->
+  (WHp (pcs s t) -> WHp (pcs s' t)) ->
+  (LWp (pcs s t) -> fw (word s) = 1 -> (LWp (pcs s' t) /\ fw (word s') = 1) \/ WHp (pcs s' t)) -> Wake s'.
+Proof.
+  intros [(u & Hu)|(Fw & u & Hu)] Ep H3 H4 H5.
+  - left. destruct (Z.eq_dec u t) as [->|Ne]; [exists t; auto|exists u; rewrite Ep by exact Ne; exact Hu].
+  - destruct (Z.eq_dec u t) as [->|Ne].
+    + destruct (H5 Hu Fw) as [(A & B)|A]; [right; split; [exact B|exists t; exact A]|left; exists t; exact A].
+    + destruct (H3 Fw) as [A|A]; [right; split; [exact A|exists u; rewrite Ep by exact Ne; exact Hu]|left; exists t; exact A].
+Qed.
+
+Lemma J_vac s' : (fv (word s') <> 0 \/ (fn (word s') = 0 /\ fw (word s') = 0)) -> J s'.
+Proof. intros [H|(A & B)] V F; [contradiction|destruct F; lia]. Qed.
+Lemma J_keep s s' t : J s -> word s' = word s -> (forall u, u <> t -> pcs s' u = pcs s u) ->
+  (Jp (pcs s t) -> fv (word s) = 0 -> (fn (word s) = 1 \/ fw (word s) = 1) -> Jp (pcs s' t)) -> J s'.
+Proof.
+  intros HJ Ew Ep Ht V F. rewrite Ew in V, F. destruct (HJ V F) as (u & Hu).
+  destruct (Z.eq_dec u t) as [->|Ne]; [exists t; auto|exists u; rewrite Ep by exact Ne; exact Hu].
+Qed.
+
+(* the thread that moves proves its own clause, the new J and Oc, and how Wake is carried over; everybody else follows *)
+Lemma Inv3_intro s s' t : Inv1 s -> Inv3 s -> Oc s' -> J s' -> T3 s' t ->
+  (forall u, u <> t -> pcs s' u = pcs s u /\ gsnap s' u = gsnap s u /\ (slp s' u = slp s u \/ slp s' u <> Sleeping)) ->
+  gfull s <= gfull s' ->
+  (gfull s' = gfull s -> fw (word s) = 1 -> fv (word s) <> 0 -> fw (word s') = 1 /\ fv (word s') <> 0) ->
+  (Wake s -> (forall u, slp s' u <> Sleeping) \/ Wake s') ->
+  (gfull s < gfull s' -> fw (word s) = 1 -> Wake s') ->
+  Inv3 s'.
+Proof.
+  intros (_ & HT1) (_ & _ & HT) O' J' T' F Hm Hst Hw Hc. split; [exact O'|]. split; [exact J'|].
+  intros u. destruct (Z.eq_dec u t) as [->|Ne]; [exact T'|].
+  destruct (F u Ne) as (Ep & Eg & Es). destruct (HT u) as (A & B & D). specialize (HT1 u). unfold T1 in HT1.
+  assert (Sl : slp s' u = Sleeping -> slp s u = Sleeping) by (intros X; destruct Es as [Es|Es]; [congruence|contradiction]).
+  unfold T3. rewrite Ep, Eg. split; [intros X; apply A, Sl, X|]. split.
+  - destruct (pcs s u); cbn [T3p T1p] in *; try exact B; destruct HT1 as (_ & (L & _)); intros E;
+      (assert (E2 : gfull s' = gfull s) by lia); (assert (E3 : gsnap s u = gfull s) by lia);
+      destruct (B E3) as (B1 & B2); apply Hst; assumption.
+  - intros X L. pose proof (Sl X) as X0. destruct (A X0) as (tmo & g & Hp). rewrite Hp in HT1, B. cbn [T1p T3p] in HT1, B.
+    destruct HT1 as (_ & (L0 & _)).
+    destruct (Z.lt_ge_cases (gsnap s u) (gfull s)) as [Lt|Ge].
+    + destruct (Hw (D X0 Lt)) as [N|W]; [exfalso; exact (N u X)|exact W].
+    + apply Hc; [lia|]. apply B. lia.
+Qed.
+
+(* the moving thread is not asleep afterwards: only the pc-dependent clause remains *)
+Lemma T3_mover s' t : slp s' t <> Sleeping -> T3p s' t (pcs s' t) -> T3 s' t.
+Proof. intros N P. split; [intros X; contradiction|]. split; [exact P|intros X; contradiction]. Qed.
+Lemma not_asleep s t : T3 s t -> (forall tmo g, pcs s t <> PSleep tmo g) -> slp s t <> Sleeping.
+Proof. intros (A & _) N X. destruct (A X) as (tmo & g & E). exact (N _ _ E). Qed.
+
+(* a step that leaves the word, the counters and the generation alone *)
+Lemma Inv3_same s s1 t p' : Inv1 s -> Inv3 s -> word s1 = word s -> gfull s1 = gfull s -> outst s1 = outst s ->
+  pcs s1 = pcs s -> (forall u, u <> t -> gsnap s1 u = gsnap s u /\ slp s1 u = slp s u) ->
+  (WHp (pcs s t) -> WHp p') ->
+  (LWp (pcs s t) -> fw (word s) = 1 -> LWp p' \/ WHp p') ->
+  (Jp (pcs s t) -> fv (word s) = 0 -> (fn (word s) = 1 \/ fw (word s) = 1) -> Jp p') ->
+  T3 (set_pc s1 t p') t -> Inv3 (set_pc s1 t p').
+Proof.
+  intros HI1 HI Ew Eg Eo Ep Fr Hwh Hlw Hj Tt. pose proof HI as (O & HJ & _).
+  assert (Pc : forall u, u <> t -> pcs (set_pc s1 t p') u = pcs s u).
+  { intros u Ne. sset. rewrite Ep. apply upd_other. exact Ne. }
+  apply (Inv3_intro s _ t HI1 HI); sset.
+  - unfold Oc in *; sset. rewrite Ew, Eo. exact O.
+  - apply (J_keep s _ t HJ); sset; [exact Ew|exact Pc|rewrite upd_same; exact Hj].
+  - exact Tt.
+  - intros u Ne. destruct (Fr u Ne) as (A & B). rewrite Ep, upd_other by exact Ne. repeat split; auto.
+  - lia.
+  - intros _ A B. rewrite Ew. auto.
+  - intros W. right. apply (Wake_frame s _ t W); sset; try exact Pc; rewrite ?upd_same, ?Ew; auto.
+    intros A B. destruct (Hlw A B); auto.
+  - intros X. lia.
+Qed.
+
+Ltac fr3 := let u := fresh "u" in let Ne := fresh "Ne" in intros u Ne; sset; rewrite ?upd_other by exact Ne; split; reflexivity.
+Ltac nw Hpc := rewrite Hpc; cbn [WHp LWp Jp]; intros [].
+Ltac awake HT Hpc := apply (not_asleep _ _ (HT _)); rewrite Hpc; intros ? ?; discriminate.
+Ltac nof := try match goal with |- False -> _ => intros [] end.
+Lemma wake_all_ns f u : wake_all f u <> Sleeping.
+Proof. unfold wake_all. destruct (f u); discriminate. Qed.
+
+Lemma leave_eff_inv3 s t k e s1 : Inv1 s -> Inv3 s -> (pcs s t = PIdle \/ pcs s t = PLeave) ->
+  (if (ea e =? word s) && negb (vzero (word s))
+   then Some (if Z.land (word s) VMASK =? V1 then set_carry s (leave_word (word s))
+              else set_count s (leave_word (word s)) (-1)) else None) = Some s1 ->
+  Inv3 (set_pc s1 t (after_add k (ea e))).
+Proof.
+  intros HI1 HI Hp Hg. pose proof HI1 as ((W & _ & _) & _). pose proof HI as ((O1 & O2) & HJ & HT).
+  crack Hg. apply andb_true_iff in C as [C0 C]. apply Z.eqb_eq in C0. apply negb_true_iff in C. rewrite vzero_fv in C.
+  apply Z.eqb_neq in C. apply Some_inj in Hg; subst s1. rewrite C0.
+  pose proof (leave_word_spec (word s) W) as (W' & Fn & Fw & L). rewrite carry_fv.
+  pose proof (oc_leave _ _ O1 O2 C) as (R & Rc & Rn).
+  assert (NW : ~ WHp (pcs s t) /\ ~ LWp (pcs s t) /\ forall tmo g, pcs s t <> PSleep tmo g).
+  { destruct Hp as [-> | ->]; repeat split; try (intros []); intros ? ?; discriminate. }
+  destruct NW as (N1 & N2 & N3).
+  assert (Pc : forall s2, pcs s2 = pcs s -> forall u, u <> t -> pcs (set_pc s2 t (after_add k (word s))) u = pcs s u).
+  { intros s2 E u Ne. sset. rewrite E. apply upd_other. exact Ne. }
+  rewrite after_add_spec.
+  destruct (Z.eqb_spec (fv (word s)) 1073741823) as [V|V]; destruct L as (Lg & Lv).
+  - (* the count reaches zero: the carry bumps the generation *)
+    apply (Inv3_intro s _ t HI1 HI); sset.
+    + unfold Oc; sset. split; [exact R|]. rewrite Lv. apply Rc. exact V.
+    + intros V0 F. sset. exists t. rewrite upd_same. apply lv_entry_J; assumption.
+    + apply T3_mover; sset; [apply (not_asleep s t (HT t)); exact N3|rewrite upd_same; apply T3p_lv_loop_entry].
+    + intros u Ne. rewrite upd_other by exact Ne. auto.
+    + lia.
+    + intros X. lia.
+    + intros Wk. right. apply (Wake_frame s _ t Wk); sset.
+      * intros u Ne. apply upd_other. exact Ne.
+      * intros X. left. rewrite Fw. exact X.
+      * intros X. contradiction.
+      * intros X. contradiction.
+    + intros _ X. assert (X' : fw (leave_word (word s)) = 1) by (rewrite Fw; exact X).
+      destruct (lv_entry_W k _ W' X') as [A|A].
+      * right. sset. split; [exact X'|]. exists t. rewrite upd_same. exact A.
+      * left. sset. exists t. rewrite upd_same. exact A.
+  - destruct (Rn V) as (Rv & Rz).
+    replace (if fv (word s) =? 0 then PCrash else end_pc k) with (end_pc k)
+      by (destruct (Z.eqb_spec (fv (word s)) 0); [contradiction|reflexivity]).
+    apply (Inv3_intro s _ t HI1 HI); sset.
+    + unfold Oc; sset. split; [exact R|]. rewrite Lv. exact Rv.
+    + apply J_vac. sset. left. rewrite Lv. exact Rz.
+    + apply T3_mover; sset; [apply (not_asleep s t (HT t)); exact N3|rewrite upd_same; destruct k; exact I].
+    + intros u Ne. rewrite upd_other by exact Ne. auto.
+    + lia.
+    + intros _ A B. rewrite Fw, Lv. split; [exact A|exact Rz].
+    + intros Wk. right. apply (Wake_frame s _ t Wk); sset.
+      * intros u Ne. apply upd_other. exact Ne.
+      * intros X. left. rewrite Fw. exact X.
+      * intros X. contradiction.
+      * intros X. contradiction.
+    + intros X. lia.
+Qed.
+
+Lemma step3 s t e s' : Inv1 s -> fresh s -> Inv3 s -> gstep s t e = Some s' -> Inv3 s'.
+Proof.
+  intros HI1 Hf HI Hs. destruct (gstep_inv _ _ _ _ Hs) as (p' & s1 & Hts & Hg & ->).
+  pose proof HI1 as ((W & G0 & Gg) & HT1). pose proof (HT1 t) as Ht1. unfold T1 in Ht1.
+  pose proof HI as ((O1 & O2) & HJ & HT). pose proof (HT t) as (TA & TB & TD).
+  destruct (pcs s t) eqn:Hpc; cbn [tstep] in Hts; cbn [geffect] in Hg; cbn [T1p] in Ht1; cbn [T3p] in TB.
+  - (* PIdle *)
+    destruct (ev_kind e DVU_CALL).
+    + assert (X : exists s0, s1 = s0 /\ (s0 = s \/ s0 = set_call_wait s t)).
+      { destruct (ea e =? OP_WAIT); injection Hg as Hg; [exists (set_call_wait s t)|exists s]; auto. }
+      destruct X as (s0 & -> & Hs0).
+      assert (P : forall s2, T3p s2 t p').
+      { intros s2. destruct ((ea e =? OP_ENTER) || (ea e =? OP_ASYNC)); [injection Hts as <-; exact I|].
+        destruct (ea e =? OP_LEAVE); [injection Hts as <-; exact I|].
+        destruct (ea e =? OP_WAIT); [injection Hts as <-; exact I|].
+        destruct (ea e =? OP_NOTIFY); [injection Hts as <-; exact I|discriminate]. }
+      destruct Hs0 as [->| ->]; apply (Inv3_same s); try assumption; try reflexivity; try fr3; try (nw Hpc);
+        apply T3_mover; sset; try (rewrite upd_same; apply P); awake HT Hpc.
+    + destruct (is_add e).
+      * injection Hts as <-. apply (leave_eff_inv3 s); auto.
+      * crack Hts. injection Hts as <-. apply Some_inj in Hg; subst s1.
+        apply (Inv3_same s); try assumption; try reflexivity; try fr3; try (nw Hpc).
+        apply T3_mover; sset; [awake HT Hpc|rewrite upd_same; exact I].
+  - discriminate.
+  - (* PEnter *)
+    crack Hts. injection Hts as <-. crack Hg. apply andb_true_iff in C0 as [_ C0]. apply negb_true_iff in C0.
+    rewrite vmax_fv in C0. apply Z.eqb_neq in C0. apply Some_inj in Hg; subst s1.
+    pose proof (enter_word_spec (word s) W) as (W' & _ & Ev & _ & Ew).
+    pose proof (oc_enter _ _ O1 O2 C0) as (R & Rv & Rz).
+    apply (Inv3_intro s _ t HI1 HI); sset.
+    + unfold Oc; sset. split; [exact R|]. rewrite Ev. exact Rv.
+    + apply J_vac. sset. left. rewrite Ev. exact Rz.
+    + apply T3_mover; sset; [awake HT Hpc|rewrite upd_same; destruct (_ =? _); exact I].
+    + intros u Ne. rewrite upd_other by exact Ne. auto.
+    + lia.
+    + intros _ A B. rewrite Ew, Ev. split; [exact A|exact Rz].
+    + intros Wk. right. apply (Wake_frame s _ t Wk); sset.
+      * intros u Ne. apply upd_other. exact Ne.
+      * intros X. left. rewrite Ew. exact X.
+      * rewrite Hpc. intros [].
+      * rewrite Hpc. intros [].
+    + intros X. lia.
+  - (* PRet *)
+    crack Hts. injection Hts as <-. apply Some_inj in Hg; subst s1.
+    apply (Inv3_same s); try assumption; try reflexivity; try fr3; try (nw Hpc).
+    apply T3_mover; sset; [awake HT Hpc|rewrite upd_same; exact I].
+  - (* PLeave *)
+    crack Hts. injection Hts as <-. apply (leave_eff_inv3 s); auto.
+  - (* PLvLoop *)
+    crack Hts. injection Hts as <-. crack Hg. apply andb_true_iff in C0 as [C1 C0]. apply Z.eqb_eq in C1.
+    apply Some_inj in Hg; subst s1.
+    pose proof (leave_new_spec old Ht1) as (_ & Wn & _ & Nv & Nn & Nw).
+    destruct (Z.eqb_spec (word s) old) as [Ew|Ew].
+    + apply Z.eqb_eq in C0. rewrite C0. cbn [Z.eqb Pos.eqb].
+      assert (X : forall s2, (s2 = set_word s (leave_new old) \/ s2 = set_tok (set_word s (leave_new old)) (TSnap t)) ->
+                  Inv3 (set_pc s2 t (wake_entry k old))).
+      { intros s2 Hs2.
+        assert (E2 : word s2 = leave_new old /\ pcs s2 = pcs s /\ gsnap s2 = gsnap s /\ slp s2 = slp s /\ gfull s2 = gfull s /\
+                     outst s2 = outst s) by (destruct Hs2 as [->| ->]; repeat split).
+        destruct E2 as (E2w & E2p & E2g & E2s & E2f & E2o).
+        apply (Inv3_intro s _ t HI1 HI); sset; rewrite ?E2w, ?E2p, ?E2g, ?E2s, ?E2f, ?E2o.
+        - unfold Oc; sset. rewrite E2w, E2o, Nv, <- Ew. split; assumption.
+        - apply J_vac. sset. rewrite E2w. destruct (Z.eqb_spec (fv old) 0) as [V|V]; [right; split; assumption|left; rewrite Nv; exact V].
+        - apply T3_mover; sset; rewrite ?E2s, ?E2p; [awake HT Hpc|rewrite upd_same; apply T3p_wake_entry].
+        - intros u Ne. rewrite upd_other by exact Ne. auto.
+        - lia.
+        - intros _ A B. rewrite Ew in A, B. rewrite Nv. split; [|exact B].
+          rewrite Nw. destruct (Z.eqb_spec (fv old) 0); [contradiction|exact A].
+        - intros Wk. right. apply (Wake_frame s _ t Wk); sset; rewrite ?E2w, ?E2p.
+          + intros u Ne. apply upd_other. exact Ne.
+          + intros A. right. rewrite upd_same. apply WHp_wake_entry; [exact Ht1|rewrite <- Ew; exact A].
+          + rewrite Hpc. intros [].
+          + rewrite Hpc. cbn [LWp]. intros A _. right. rewrite upd_same. apply WHp_wake_entry; assumption.
+        - intros A. lia. }
+      destruct (nz _); apply X; auto.
+    + apply Z.eqb_eq in C0. rewrite C0. cbn [Z.eqb].
+      assert (Wa : wfw (ea e)) by (rewrite C1; exact W).
+      apply (Inv3_same s); try assumption; try reflexivity; try fr3; rewrite ?Hpc; cbn [WHp LWp Jp].
+      * intros [].
+      * intros _ A. apply lv_entry_W; [exact Wa|rewrite C1; exact A].
+      * intros _ A B. apply lv_entry_J; rewrite ?C1; assumption.
+      * apply T3_mover; sset; [awake HT Hpc|rewrite upd_same; apply T3p_lv_loop_entry].
+  - (* PSnapHead *)
+    crack Hts. injection Hts as <-. apply Some_inj in Hg; subst s1.
+    apply (Inv3_same s); try assumption; try reflexivity; try fr3; rewrite ?Hpc; cbn [WHp LWp Jp]; nof.
+    + intros A. destruct (_ =? _); exact A.
+    + apply T3_mover; sset; [awake HT Hpc|rewrite upd_same; destruct (_ =? _); exact I].
+  - (* PSnapStore *)
+    crack Hts. injection Hts as <-. apply Some_inj in Hg; subst s1.
+    apply (Inv3_same s); try assumption; try reflexivity; try fr3; rewrite ?Hpc; cbn [WHp LWp Jp]; nof.
+    + intros A. exact A.
+    + apply T3_mover; sset; [awake HT Hpc|rewrite upd_same; exact I].
+  - (* PSnapTail *)
+    crack Hts. injection Hts as <-. crack Hg. apply Some_inj in Hg; subst s1.
+    apply (Inv3_same s); try assumption; try reflexivity; try fr3; rewrite ?Hpc; cbn [WHp LWp Jp]; nof.
+    + intros A. exact A.
+    + apply T3_mover; sset; [awake HT Hpc|rewrite upd_same; exact I].
+  - (* PFire *)
+    crack Hts. injection Hts as <-. destruct (held s t) as [|[i ptr] rest]; [discriminate|]. crack Hg.
+    apply Some_inj in Hg; subst s1.
+    apply (Inv3_same s); try assumption; try reflexivity; try fr3; rewrite ?Hpc; cbn [WHp LWp Jp]; nof.
+    + intros A. destruct (_ =? _); [apply WHp_wake_tail; assumption|exact A].
+    + apply T3_mover; sset; [awake HT Hpc|rewrite upd_same; destruct (_ =? _); [apply T3p_wake_tail|exact I]].
+  - (* PWakeFutex: everybody asleep on dg_gen is woken *)
+    crack Hts. injection Hts as <-. apply Some_inj in Hg; subst s1.
+    apply (Inv3_intro s _ t HI1 HI); sset.
+    + split; assumption.
+    + apply (J_keep s _ t HJ); sset; [reflexivity|intros u Ne; apply upd_other; exact Ne|rewrite Hpc; intros []].
+    + apply T3_mover; sset; [apply wake_all_ns|rewrite upd_same; destruct k; exact I].
+    + intros u Ne. rewrite upd_other by exact Ne. repeat split; auto. right. apply wake_all_ns.
+    + lia.
+    + auto.
+    + intros _. left. intros u. apply wake_all_ns.
+    + intros X. lia.
+  - (* PWtLoad *)
+    crack Hts. injection Hts as <-. crack Hg. apply Z.eqb_eq in C0. apply Some_inj in Hg; subst s1.
+    apply (Inv3_same s); try assumption; try reflexivity; try fr3; try (nw Hpc).
+    apply T3_mover; sset; [awake HT Hpc|rewrite upd_same].
+    apply T3p_wt_entry; [rewrite C0; exact W|intros _; sset; symmetry; exact C0].
+  - (* PWtCas *)
+    destruct Ht1 as (Wo & En & _).
+    crack Hts. injection Hts as <-. crack Hg. apply andb_true_iff in C0 as [C1 C0]. apply Z.eqb_eq in C1.
+    apply Some_inj in Hg; subst s1.
+    destruct (Z.eqb_spec (eok e) 1) as [Ok|Nok].
+    + cbn [negb orb] in C0. apply Z.eqb_eq in C0. pose proof (lor_hw_spec old Wo) as (Wn & _ & Nv & _ & Nw). subst new.
+      apply (Inv3_intro s _ t HI1 HI); sset.
+      * unfold Oc; sset. rewrite Nv, <- C0. split; assumption.
+      * apply J_vac. sset. left. rewrite Nv. exact TB.
+      * apply T3_mover; sset; [awake HT Hpc|rewrite upd_same; cbn [T3p]; sset]. intros _. rewrite Nv. auto.
+      * intros u Ne. rewrite !upd_other by exact Ne. auto.
+      * lia.
+      * intros _ A B. rewrite Nv, Nw. auto.
+      * intros Wk. right. apply (Wake_frame s _ t Wk); sset.
+        -- intros u Ne. apply upd_other. exact Ne.
+        -- intros _. left. exact Nw.
+        -- rewrite Hpc. intros [].
+        -- rewrite Hpc. intros [].
+      * intros X. lia.
+    + apply (Inv3_same s); try assumption; try reflexivity; try fr3; try (nw Hpc).
+      apply T3_mover; sset; [awake HT Hpc|rewrite upd_same].
+      apply T3p_wt_entry; [rewrite C1; exact W|intros _; sset; symmetry; exact C1].
+  - (* PSlow *)
+    destruct Ht1 as (Eg & (Lg & _)).
+    destruct (ev_kind e DV_FUTEX_WAIT && (eoff e =? OFF_GEN) && (ea e =? gen)) eqn:C.
+    + injection Hts as <-. apply andb_true_iff in C as [C C2]. apply andb_true_iff in C as [C C1]. rewrite C in Hg.
+      apply Z.eqb_eq in C2. apply Some_inj in Hg; subst s1.
+      apply (Inv3_same s); try assumption; try reflexivity; try fr3; try (nw Hpc).
+      unfold T3; sset. rewrite !upd_same. split; [intros _; eauto|]. split; [exact TB|].
+      intros X L. exfalso.
+      destruct (Z.eqb_spec (f_dg_state_gen (word s)) (ea e)) as [E|E]; [|discriminate X].
+      rewrite (gen_fields _ W), Gg, C2, Eg in E.
+      assert (Fr : gfull s - gsnap s t < 4294967296) by (apply Hf; rewrite Hpc; reflexivity).
+      pose proof (fresh_eq _ _ Lg Fr E). lia.
+    + crack Hts. injection Hts as <-.
+      assert (Hg' : (if ea e =? f_dg_state_gen (word s) then Some s else None) = Some s1).
+      { destruct (ev_kind e DV_FUTEX_WAIT) eqn:K; [|exact Hg]. exfalso.
+        apply andb_true_iff in C0 as [C0 _]. apply andb_true_iff in C0 as [C0 _]. apply ev_is_kind in C0.
+        unfold ev_kind in K. rewrite C0 in K. discriminate K. }
+      crack Hg'. apply Some_inj in Hg'; subst s1.
+      apply (Inv3_same s); try assumption; try reflexivity; try fr3; try (nw Hpc).
+      apply T3_mover; sset; [awake HT Hpc|rewrite upd_same; destruct (_ =? _); exact I].
+  - (* PSleep *)
+    crack Hts. injection Hts as <-. apply Some_inj in Hg; subst s1.
+    apply (Inv3_same s); try assumption; try reflexivity; try fr3; try (nw Hpc).
+    apply T3_mover; sset; [rewrite upd_same; discriminate|rewrite upd_same; exact TB].
+  - (* PSlowLoad *)
+    crack Hts. injection Hts as <-. crack Hg. apply Some_inj in Hg; subst s1.
+    apply (Inv3_same s); try assumption; try reflexivity; try fr3; try (nw Hpc).
+    apply T3_mover; sset; [awake HT Hpc|rewrite upd_same].
+    destruct (_ =? _); [destruct (_ =? _); [exact I|exact TB]|exact I].
+  - (* PRetV *)
+    crack Hts. injection Hts as <-. apply Some_inj in Hg; subst s1.
+    apply (Inv3_same s); try assumption; try reflexivity; try fr3; try (nw Hpc).
+    apply T3_mover; sset; [awake HT Hpc|rewrite upd_same; exact I].
+  - (* PNfPush *)
+    crack Hts. injection Hts as <-. crack Hg. apply Some_inj in Hg; subst s1.
+    apply (Inv3_same s); try assumption; try reflexivity; try fr3; try (nw Hpc).
+    apply T3_mover; sset; [awake HT Hpc|rewrite upd_same; destruct (_ =? _); exact I].
+  - (* PNfHead *)
+    crack Hts. injection Hts as <-. apply Some_inj in Hg; subst s1.
+    apply (Inv3_same s); try assumption; try reflexivity; try fr3; try (nw Hpc).
+    apply T3_mover; sset; [awake HT Hpc|rewrite upd_same; exact I].
+  - (* PNfLoad *)
+    crack Hts. injection Hts as <-. crack Hg. apply Some_inj in Hg; subst s1.
+    destruct (is_presnap _); apply (Inv3_same s); try assumption; try reflexivity; try fr3; try (nw Hpc);
+      apply T3_mover; sset; try (awake HT Hpc); rewrite upd_same; apply T3p_nf_entry.
+  - (* PNfCas *)
+    destruct Ht1 as (Wo & En).
+    crack Hts. injection Hts as <-. crack Hg. apply andb_true_iff in C0 as [C1 C0]. apply Z.eqb_eq in C1.
+    apply Some_inj in Hg; subst s1.
+    destruct (Z.eqb_spec (eok e) 1) as [Ok|Nok].
+    + cbn [negb orb] in C0. apply Z.eqb_eq in C0. pose proof (lor_hn_spec old Wo) as (Wn & _ & Nv & Nn & Nw). subst new.
+      apply (Inv3_intro s _ t HI1 HI); sset.
+      * unfold Oc; sset. rewrite Nv, <- C0. split; assumption.
+      * intros V F. sset. rewrite Nv in V. rewrite <- C0 in V.
+        assert (F0 : fn (word s) = 1 \/ fw (word s) = 1) by (apply flags_of_u32; [exact W|exact V|rewrite C0; exact TB]).
+        destruct (HJ V F0) as (u & Hu). assert (Ne : u <> t) by (intros ->; rewrite Hpc in Hu; exact Hu).
+        exists u. rewrite upd_other by exact Ne. exact Hu.
+      * apply T3_mover; sset; [awake HT Hpc|rewrite upd_same; exact I].
+      * intros u Ne. rewrite upd_other by exact Ne. auto.
+      * lia.
+      * intros _ A B. rewrite Nv, Nw, <- C0. auto.
+      * intros Wk. right. apply (Wake_frame s _ t Wk); sset.
+        -- intros u Ne. apply upd_other. exact Ne.
+        -- intros A. left. rewrite Nw, <- C0. exact A.
+        -- rewrite Hpc. intros [].
+        -- rewrite Hpc. intros [].
+      * intros X. lia.
+    + destruct (is_presnap _); apply (Inv3_same s); try assumption; try reflexivity; try fr3; try (nw Hpc);
+        apply T3_mover; sset; try (awake HT Hpc); rewrite upd_same; apply T3p_nf_entry.
+Qed.
+
+(* ---- runs in which every wait stays fresh (fewer than 2^32 generations elapse during one wait) ---- *)
+Lemma reach_nw_reach s : reach_nw s -> reach s.
+Proof.
+  intros R. induction R as [s H|s a s' R IH (St & _)]; [apply reach_init; exact H|].
+  apply (reach_step _ _ s a s' IH St).
+Qed.
+Lemma fresh_init : fresh init_state.
+Proof. intros t H. discriminate H. Qed.
+Lemma reach_nw_fresh s : reach_nw s -> fresh s.
+Proof. intros R. destruct R as [s H|s a s' R (_ & F)]; [subst; apply fresh_init|exact F]. Qed.
+Theorem inv3_reach s : reach_nw s -> Inv3 s.
+Proof.
+  intros R. induction R as [s H|s [t e] s' R IH (St & _)]; [subst; apply Inv3_init|].
+  destruct St as (_ & Hs). cbn in Hs.
+  apply (step3 s t e s'); [apply inv_reach, reach_nw_reach; exact R|apply reach_nw_fresh; exact R|exact IH|exact Hs].
+Qed.
+
+(* the value field is the number of outstanding enters *)
+Lemma value_is_outstanding s : reach_nw s ->
+  0 <= outst s < 1073741824 /\ fv (word s) = (1073741824 - outst s) mod 1073741824.
+Proof. intros R. apply (inv3_reach s R). Qed.
+
+(* a thread asleep in futex_wait on dg_gen always has its wake-up coming *)
+Lemma sleeper_has_waker s t : reach_nw s -> slp s t = Sleeping ->
+  (gsnap s t = gfull s /\ fw (word s) = 1 /\ fv (word s) <> 0) \/ (gsnap s t < gfull s /\ Wake s).
+Proof.
+  intros R Hs. destruct (inv3_reach s R) as (_ & _ & HT). destruct (HT t) as (A & B & D).
+  destruct (inv_reach s (reach_nw_reach s R)) as ((_ & HT1) & _). specialize (HT1 t). unfold T1 in HT1.
+  destruct (A Hs) as (tmo & g & Hp). rewrite Hp in B, HT1. cbn [T3p T1p] in B, HT1. destruct HT1 as (_ & (L & _)).
+  destruct (Z.lt_ge_cases (gsnap s t) (gfull s)) as [Lt|Ge]; [right; auto|left].
+  assert (E : gsnap s t = gfull s) by lia. destruct (B E). auto.
+Qed.
+
+Definition quiet (p : pc) : bool :=
+  match p with
+  | PIdle | PCrash | PEnter | PRet | PWtLoad _ | PWtCas _ _ _ | PSlow _ _ | PSleep _ _ | PSlowLoad _ _ _ | PRetV _ => true
+  | _ => false
+  end.
+Section Arith4.
+Local Ltac Zify.zify_post_hook ::= Z.div_mod_to_equations.
+Lemma oc_zero o : 0 <= o < 1073741824 -> 0 = (1073741824 - o) mod 1073741824 -> o = 0.
+Proof. intros. lia. Qed.
+End Arith4.
+
+(* value = 0 and no leave / notify / wake in flight: nobody sleeps on the group, the word is gen|0|0|0, the list is empty,
+   nothing is held, every registered notification has been submitted, every enter has been matched *)
+Theorem none_left_behind s : reach_nw s -> fv (word s) = 0 -> (forall u, quiet (pcs s u) = true) ->
+  (forall t, slp s t <> Sleeping) /\ fn (word s) = 0 /\ fw (word s) = 0 /\ nq s = [] /\ (forall t, held s t = []) /\
+  (forall i, 0 <= i < nreg s -> fcnt s i = 1) /\ outst s = 0.
+Proof.
+  intros R V Q. pose proof (inv3_reach s R) as ((O1 & O2) & HJ & HT).
+  destruct (inv_reach s (reach_nw_reach s R)) as (((W & _) & _) & (G & HI2 & HT2)).
+  assert (NJ : forall u, ~ Jp (pcs s u)).
+  { intros u X. specialize (Q u). destruct (pcs s u); try exact X; discriminate Q. }
+  assert (NW : ~ Wake s).
+  { intros [(u & X)|(_ & u & X)]; specialize (Q u); destruct (pcs s u); try exact X; discriminate Q. }
+  assert (Fl : fn (word s) = 0 /\ fw (word s) = 0).
+  { pose proof (decomp _ W) as (_ & _ & _ & Bn & Bw).
+    destruct (Z.eq_dec (fn (word s)) 0) as [A|A]; [destruct (Z.eq_dec (fw (word s)) 0) as [B|B]; [auto|]|].
+    - destruct (HJ V) as (u & X); [right; lia|]. exfalso. exact (NJ u X).
+    - destruct (HJ V) as (u & X); [left; lia|]. exfalso. exact (NJ u X). }
+  destruct Fl as (Fn0 & Fw0).
+  assert (Hh : forall t, held s t = []).
+  { intros t. destruct (HT2 t) as (_ & _ & _ & D & _). apply D. specialize (Q t). destruct (pcs s t); try discriminate. }
+  split; [|split; [exact Fn0|split; [exact Fw0|]]].
+  - intros t Hs. destruct (sleeper_has_waker s t R Hs) as [(_ & _ & X)|(_ & X)]; [contradiction|exact (NW X)].
+  - assert (Hq : nq s = []).
+    { unfold G2 in G. destruct (ntok s) as [|p| |p].
+      - apply G.
+      - destruct G as (_ & _ & C). specialize (Q p). destruct (pcs s p); try discriminate.
+      - destruct G as (_ & C). lia.
+      - destruct G as (_ & _ & C). specialize (Q p). destruct (pcs s p); try discriminate. }
+    split; [exact Hq|]. split; [exact Hh|]. split.
+    + intros i Hi. destruct HI2 as (_ & _ & _ & _ & _ & If & Ic & _). destruct (Ic i Hi) as (A & B & [C|[C|C]]).
+      * specialize (A C). rewrite Hq in A. destruct A.
+      * rewrite If, C. reflexivity.
+      * specialize (B C). rewrite Hh in B. destruct B.
+    + apply oc_zero; [exact O1|rewrite <- O2; symmetry; exact V].
+Qed.
+
+(* the same, in the form of the property: no reachable state with value = 0, nothing in flight, and either a sleeping
+   waiter whose generation snapshot differs from the current generation or a registered notification not yet submitted *)
+Theorem none_left_behind_neg s : reach_nw s -> fv (word s) = 0 -> (forall u, quiet (pcs s u) = true) ->
+  ~ (exists t, slp s t = Sleeping /\ gsnap s t <> gfull s) /\ ~ (exists i, 0 <= i < nreg s /\ fcnt s i <> 1).
+Proof.
+  intros R V Q. destruct (none_left_behind s R V Q) as (A & _ & _ & _ & _ & B & _). split.
+  - intros (t & X & _). exact (A t X).
+  - intros (i & Hi & X). exact (X (B i Hi)).
+Qed.
+
+(* the freshness hypothesis is satisfiable: it holds along every run of fewer than 2^32 generations *)
+Lemma gstep_mono s t e s' : gstep s t e = Some s' ->
+  gfull s <= gfull s' /\ forall u, gsnap s' u = gsnap s u \/ gsnap s' u = gfull s.
+Proof.
+  intros Hs. destruct (gstep_inv _ _ _ _ Hs) as (p' & s1 & _ & Hg & ->). clear Hs.
+  assert (X : (gfull s1 = gfull s \/ gfull s1 = gfull s + 1) /\
+              (gsnap s1 = gsnap s \/ gsnap s1 = upd (gsnap s) t (gfull s))).
+  { destruct (pcs s t); cbn [geffect] in Hg;
+      repeat (match type of Hg with
+              | (if ?c then _ else _) = Some _ => destruct c
+              | (match ?x with _ => _ end) = Some _ => destruct x
+              | None = Some _ => discriminate Hg
+              end);
+      apply Some_inj in Hg; subst s1;
+      repeat (match goal with |- context [if ?c then _ else _] => destruct c end); sset; auto. }
+  destruct X as (A & B). sset. split; [lia|]. intros u. destruct B as [-> | ->]; [left; reflexivity|].
+  unfold upd. destruct (u =? t); auto.
+Qed.
+Lemma gsnap_nonneg s : reach s -> 0 <= gfull s /\ forall t, 0 <= gsnap s t.
+Proof.
+  intros R. induction R as [s H|s [t e] s' R (IH1 & IH2) (_ & Hs)]; [subst; cbn; split; [lia|intros; lia]|].
+  cbn in Hs. destruct (gstep_mono _ _ _ _ Hs) as (A & B). split; [lia|]. intros u. destruct (B u) as [-> | ->]; auto.
+Qed.
+Theorem small_runs_are_fresh s : reach s -> gfull s < 4294967296 -> reach_nw s.
+Proof.
+  intros R. induction R as [s H|s [t e] s' R IH St]; intros L; [apply reach_init; exact H|].
+  pose proof St as (Vt & Hs). cbn in Hs. destruct (gstep_mono _ _ _ _ Hs) as (A & _).
+  apply (reach_step _ _ s (t, e) s'); [apply IH; lia|]. split; [exact St|].
+  intros u _. assert (R' : reach s') by (eapply reach_gstep; eauto).
+  destruct (gsnap_nonneg s' R') as (_ & N). specialize (N u). lia.
+Qed.
+
+(* ---- concrete witnesses ---- *)
+Lemma not_early_refuted :
+  exists s, reach s /\ early s = true /\ outst s = 1 /\ fcnt s 1 = 1 /\ (fv (word s) =? 0) = false.
+Proof.
+  assert (H : match grun init_state early_schedule with
+              | Some s => early s = true /\ outst s = 1 /\ fcnt s 1 = 1 /\ (fv (word s) =? 0) = false
+              | None => False end) by (vm_compute; repeat split).
+  destruct (grun init_state early_schedule) as [s|] eqn:E; [|destruct H].
+  exists s. split; [|exact H].
+  apply (grun_reach early_schedule init_state s); [apply reach_init; reflexivity| |exact E].
+  repeat constructor.
+Qed.
+Lemma demo_is_fresh :
+  match grun init_state (firstn 7 demo_schedule) with
+  | Some s => reach_nw s /\ slp s 3 = Sleeping /\ gsnap s 3 = gfull s | None => False end.
+Proof.
+  assert (H : match grun init_state (firstn 7 demo_schedule) with
+              | Some s => gfull s < 4294967296 /\ slp s 3 = Sleeping /\ gsnap s 3 = gfull s | None => False end)
+    by (vm_compute; repeat split).
+  destruct (grun init_state (firstn 7 demo_schedule)) as [s|] eqn:E; [|destruct H]. destruct H as (A & B & C).
+  split; [|split; assumption]. apply small_runs_are_fresh; [|exact A].
+  apply (grun_reach (firstn 7 demo_schedule) init_state s); [apply reach_init; reflexivity| |exact E].
+  repeat constructor.
+Qed.
+
+Lemma masks_all x : Z.land x VMASK = fv x * 4 /\ Z.land x HW = fw x /\ Z.land x HN = fn x * 2.
+Proof. split; [apply land_vmask|split; [apply land_hw|apply land_hn]]. Qed.
+Lemma generation_counts s : reach s -> wfw (word s) /\ 0 <= gfull s /\ fg (word s) = gfull s mod 4294967296.
+Proof. intros R. apply (inv_reach s R). Qed.
+Lemma reusable s t e s' : reach s -> valid_tid t -> gstep s t e = Some s' -> reach s' /\ Inv1 s' /\ Inv2 s'.
+Proof.
+  intros R Vt Hs. assert (R' : reach s') by (eapply reach_gstep; eauto). split; [exact R'|apply inv_reach; exact R'].
+Qed.
+Lemma sites_all :
+  canon model_sites_enter = canon group_enter_sites /\ canon model_sites_leave = canon group_leave_sites /\
+  canon model_sites_wait = canon group_wait_sites /\ canon model_sites_wait_slow = canon group_wait_slow_sites /\
+  canon model_sites_notify = canon group_notify_sites /\ canon model_sites_wake = canon group_wake_sites /\
+  group_wait_loop_order = Relaxed /\ group_notify_loop_order = Release.
+Proof.
+  split; [apply sites_enter|]. split; [apply sites_leave|]. split; [apply sites_wait|]. split; [apply sites_wait_slow|].
+  split; [apply sites_notify|]. split; [apply sites_wake|]. split; reflexivity.
+Qed.
+
+(* what the ghost flag of C07_wait_zero_sound means: it is reset to [count = 0] when dispatch_group_wait is called, and it
+   can only turn true in a step whose source or target state has the count at zero *)
+Lemma carry_zero w : wfw w -> (Z.land w VMASK =? V1) = true -> vzero (leave_word w) = true.
+Proof.
+  intros W C. rewrite carry_fv in C. pose proof (leave_word_spec w W) as (_ & _ & _ & L). rewrite C in L.
+  rewrite vzero_fv. destruct L as (_ & ->). reflexivity.
+Qed.
+Lemma wz_meaning s t e s' u : reach s -> gstep s t e = Some s' -> wz s' u = true ->
+  wz s u = true \/ vzero (word s) = true \/ vzero (word s') = true.
+Proof.
+  intros R Hs Hw. destruct (inv_reach s R) as (((W & _) & _) & _).
+  destruct (gstep_inv _ _ _ _ Hs) as (p' & s1 & _ & Hg & ->). clear Hs. sset.
+  assert (X : wz s1 = wz s \/ wz s1 = upd (wz s) t (wz s t || vzero (word s)) \/ wz s1 = upd (wz s) t (vzero (word s)) \/
+              vzero (word s1) = true).
+  { destruct (pcs s t); cbn [geffect] in Hg;
+      repeat (match type of Hg with
+              | (if ?c then _ else _) = Some _ => destruct c eqn:?
+              | (match ?x with _ => _ end) = Some _ => destruct x
+              | None = Some _ => discriminate Hg
+              end);
+      apply Some_inj in Hg; subst s1;
+      repeat (match goal with |- context [if ?c then _ else _] => destruct c eqn:? end); sset;
+      first [left; reflexivity | right; left; reflexivity | right; right; left; reflexivity
+            | right; right; right; apply carry_zero; assumption]. }
+  destruct X as [E|[E|[E|E]]].
+  - rewrite E in Hw. auto.
+  - rewrite E in Hw. unfold upd in Hw. destruct (Z.eqb_spec u t) as [->|]; [|auto]. apply orb_true_iff in Hw as [A|A]; auto.
+  - rewrite E in Hw. unfold upd in Hw. destruct (Z.eqb_spec u t) as [->|]; auto.
+  - auto.
+Qed.
+Lemma wz_reset s t e s' : pcs s t = PIdle -> ev_kind e DVU_CALL = true -> ea e = OP_WAIT -> gstep s t e = Some s' ->
+  wz s' t = vzero (word s).
+Proof.
+  intros Hp K E Hs. unfold gstep in Hs. rewrite Hp in Hs. cbn [tstep geffect] in Hs. rewrite K, E in Hs. cbn in Hs.
+  apply Some_inj in Hs. subst s'. sset. apply upd_same.
+Qed.
